@@ -167,6 +167,12 @@ func unhex(s string) []byte {
 }
 
 // setField stores the value denoted by a token into a struct field.
+// subSecond: a date-time value may carry a fraction of a second (time.Now() does); the wire form has whole seconds
+// only and drops it. Derived from the fields so that a case stays a function of its line.
+func subSecond(v []int) int {
+	return ((v[5]*37 + v[4]*11 + v[3]*7 + v[2]) % 4) * 333000000 // 0, .333, .666, .999 s
+}
+
 func setField(f reflect.Value, tok string) {
 	p := strings.SplitN(tok, ":", 2)
 	arg := ""
@@ -224,7 +230,7 @@ func setField(f reflect.Value, tok string) {
 	case tDT:
 		if arg != "0" {
 			v := dashInts(arg)
-			f.Set(reflect.ValueOf(types.DateTime(time.Date(v[0], time.Month(v[1]), v[2], v[3], v[4], v[5], 0, time.Local))))
+			f.Set(reflect.ValueOf(types.DateTime(time.Date(v[0], time.Month(v[1]), v[2], v[3], v[4], v[5], subSecond(v), time.Local))))
 		}
 	case tDTPtr:
 		if arg == "nil" {
@@ -232,7 +238,7 @@ func setField(f reflect.Value, tok string) {
 			f.Set(reflect.ValueOf(&types.DateTime{}))
 		} else {
 			v := dashInts(arg)
-			d := types.DateTime(time.Date(v[0], time.Month(v[1]), v[2], v[3], v[4], v[5], 0, time.Local))
+			d := types.DateTime(time.Date(v[0], time.Month(v[1]), v[2], v[3], v[4], v[5], subSecond(v), time.Local))
 			f.Set(reflect.ValueOf(&d))
 		}
 	case tSysDate:
